@@ -39,7 +39,7 @@ run       One forked child per case.  The child opens a pty pair, gives the slav
           probes log the size they are given.  After run() the child reads
           everything the terminal received and reports the log, the outcome of run(), screen.started, termios of
           the slave before/after, the three signal handlers before/after and the terminal bytes (per draw, final).
-          No callback for STALL seconds = the child reports a stall instead.
+          No callback for STALL seconds (STALL_RAISED once the injected exception is out) = the child reports a stall instead.
 
 model     "which probe is topmost when this key is processed": `base` until an open key reaches the launcher,
           `pop` until a close key reaches the pop-up probe, `w<n>` after the n-th assignment to loop.widget
